@@ -10,6 +10,7 @@ import (
 	"crypto/sha256"
 	"fmt"
 	"net/http"
+	"net/url"
 	"sort"
 	"strings"
 	"sync"
@@ -42,8 +43,9 @@ type Op struct {
 	A, B int
 	Flip bool
 	// Pad > 0 (reads): the numeric query parameters are spelt in a non-canonical decimal form - 1: one leading
-	// zero, 2: zero-padded to 6 digits, 3: a leading plus sign. The log may refuse such a request; when it
-	// answers, the answer is judged for the decimal value.
+	// zero, 2: zero-padded to 6 digits, 3: a leading plus sign - or the query string as a whole is (4: every
+	// value percent-encoded, unknown parameters around; 5: parameters in another order between empty pairs).
+	// The log may refuse such a request; when it answers, the answer is judged for the decimal value.
 	Pad int
 }
 
@@ -100,7 +102,7 @@ func genOps(t *rapid.T, n int, label string) []Op {
 		}
 		if last := &ops[len(ops)-1]; last.Kind == "cons" || last.Kind == "proof" || last.Kind == "entries" || last.Kind == "eap" {
 			if rapid.IntRange(0, 3).Draw(t, "padded") == 0 {
-				last.Pad = rapid.IntRange(1, 3).Draw(t, "pad")
+				last.Pad = rapid.IntRange(1, 5).Draw(t, "pad")
 			}
 		}
 	}
@@ -259,6 +261,28 @@ func (p padTransport) RoundTrip(req *http.Request) (*http.Response, error) {
 		}
 		req = req.Clone(req.Context())
 		req.URL.RawQuery = q.Encode()
+		switch mode {
+		case 4:
+			// every character of every value percent-encoded, and parameters the endpoint does not know around them
+			var parts []string
+			for k, vs := range q {
+				enc := ""
+				for _, c := range []byte(vs[0]) {
+					enc += fmt.Sprintf("%%%02X", c)
+				}
+				parts = append(parts, k+"="+enc)
+			}
+			sort.Strings(parts)
+			req.URL.RawQuery = "zz=9&" + strings.Join(parts, "&") + "&aa=1&tree_sizes=3"
+		case 5:
+			// the same parameters in the opposite order, separated and followed by empty pairs
+			var parts []string
+			for k, vs := range q {
+				parts = append(parts, url.QueryEscape(k)+"="+url.QueryEscape(vs[0]))
+			}
+			sort.Sort(sort.Reverse(sort.StringSlice(parts)))
+			req.URL.RawQuery = "&" + strings.Join(parts, "&&") + "&"
+		}
 	}
 	return p.inner.RoundTrip(req)
 }
@@ -269,6 +293,13 @@ func (r *run) failf(sig, f string, a ...any) {
 	r.mu.Unlock()
 }
 func (r *run) class(c string) { r.mu.Lock(); r.v.Class(c); r.mu.Unlock() }
+
+// answered records that a request in a non-canonical spelling was served (and judged).
+func (r *run) answered(op Op) {
+	if op.Pad != 0 {
+		r.class(fmt.Sprintf("respelt-request-answered:%d", op.Pad))
+	}
+}
 
 func asn1Chain(ders [][]byte) []ct.ASN1Cert {
 	out := make([]ct.ASN1Cert, len(ders))
@@ -422,6 +453,7 @@ func (r *run) exec(ctx context.Context, op Op, concurrent bool) {
 			r.failf("consistency-proof", "served proof (%d,%d) does not verify: %v", first, second, err)
 		}
 		r.class("consistency-checked")
+		r.answered(op)
 		// the other in-range pairs that are written with the same digits (1,123 / 11,23 / 112,3 ...) are asked
 		// right afterwards on the same instance: each must get its own proof
 		digits := fmt.Sprint(first) + fmt.Sprint(second)
@@ -504,6 +536,7 @@ func (r *run) exec(ctx context.Context, op Op, concurrent bool) {
 			r.failf("audit-path", "get-entry-and-proof(%d,%d): served audit path does not verify against the root of size %d: %v", i, n, n, err)
 		}
 		r.class("entry-and-proof-checked")
+		r.answered(op)
 	case "roots":
 		got, err := r.lc.GetAcceptedRoots(ctx)
 		if err != nil {
@@ -633,6 +666,7 @@ func (r *run) proofByHash(ctx context.Context, op Op) {
 		r.failf("audit-path", "get-proof-by-hash(leaf %d, size %d): served path (index %d) does not verify: %v", idx, size, rsp.LeafIndex, err)
 	}
 	r.class("proof-by-hash-checked")
+	r.answered(op)
 }
 
 // finalChecks links all served STHs pairwise and looks every issued SCT up.
